@@ -22,7 +22,7 @@ import itertools
 import struct
 
 STREAMS = ['binary-cuts', 'binary-random', 'binary-coalesced', 'binary-malformed',
-           'lines-scripted', 'handoff-real-client', 'handoff-real-server', 'handoff-cuts', 'handoff-bigtail']
+           'lines-scripted', 'handoff-real-client', 'handoff-real-server', 'handoff-cuts', 'handoff-bigtail', 'handoff-stub', 'binary-unparsable']
 THEOREMS = ['binary_partition_independent', 'frames_of_messages', 'line_partition_independent',
             'handoff', 'loop_bounded']
 TRUSTED_BASE = [
@@ -37,6 +37,15 @@ ASSUMPTIONS = [
     'Twisted never delivers an empty read to a server before the first byte was seen (the code indexes data[0])',
     'the reactor turns an exception escaping dataReceived into a lost connection (no further reads)',
     'rawDBusMessageReceived does not re-enter dataReceived',
+    'a message that fails to PARSE makes rawDBusMessageReceived raise inside the delivery loop: [unparsable, good] '
+    'in one read leaves `good` buffered (delivered by the next read), as two reads `good` is delivered at once - '
+    'partition-dependent, but only after an exception escaped dataReceived, i.e. on a connection the reactor drops; '
+    'the oracle judges such streams up to and including the unparsable message (stream binary-unparsable)',
+    'Spec.WellFormed (length fields consistent) holds for every message _marshal constructs: C03 '
+    'marshal_wellformed gives the byte layout, Proofs/Proto/Frames.lean wellFormed_of_layout turns that layout '
+    'into WellFormed; the two are not composed in one Lean theorem (C04 does not import C03)',
+    'hand-off cases are judged only when the implementation did authenticate (the handshakes use well-formed '
+    'lines and 32-hex-digit GUIDs; authentication itself is C06 / C07)',
 ]
 RULE = ('one case = one (stream, partition) pair; distinct = distinct canonical JSON of (mode, reads); '
         'non-trivial = at least one complete message or auth line is delivered')
@@ -51,6 +60,9 @@ TRICKY_INT = [2573, 3338, 0x0A0D0A0D, 0x0D0A0D0A, 13, 10, 0x0D00, 0x000A0000, 0x
 def _mods():
     from txdbus import marshal, message, protocol, error
     return marshal, message, protocol, error
+
+
+SERIALIZER_NOTES = []
 
 
 def serialize(m, big):
@@ -187,8 +199,10 @@ def gen_message(rng, short=False, kinds=('ret', 'err', 'sig', 'call'), big=None)
     if not big:
         m._marshal(False)
         if m.rawMessage != raw:
-            raise RuntimeError('reference serializer differs from _marshal: %s vs %s'
-                               % (raw.hex(), m.rawMessage.hex()))
+            # what _marshal writes is the message that was sent (its content is C03's business)
+            SERIALIZER_NOTES.append('reference serializer differs from _marshal: %s vs %s'
+                                    % (raw.hex()[:200], m.rawMessage.hex()[:200]))
+            raw = m.rawMessage
     return raw, big, m
 
 
@@ -255,6 +269,17 @@ class _FakeBus:
 class _FakeFactory:
     bus = _FakeBus()
 
+    def _ok(self, proto):
+        pass
+
+    def _failed(self, err):
+        pass
+
+
+class _FakeSocket:
+    def getsockopt(self, level, opt, size):
+        return struct.pack('3i', 1, 1, 1)
+
 
 def _make_classes():
     """Build the observing subclasses against the txdbus currently imported (ctx.repo)."""
@@ -264,6 +289,9 @@ def _make_classes():
     import twisted.python.log  # noqa
 
     class Recorder:
+        swallow = False
+        parse_failed = False
+
         def _rec_init(self):
             self.effects = []
             self.parsed = []
@@ -274,8 +302,11 @@ def _make_classes():
             self.raws.append(bytes(raw))
             try:
                 protocol.BasicDBusProtocol.rawDBusMessageReceived(self, raw)
-            except Exception as e:   # content that does not parse is not a framing matter
+            except Exception as e:
                 self.parsed.append({'parse-error': type(e).__name__})
+                self.parse_failed = True
+                if not self.swallow:     # as in the real code: the exception escapes dataReceived
+                    raise
 
         def methodCallReceived(self, m):
             self.parsed.append(canon_msg(m))
@@ -340,6 +371,12 @@ def _make_classes():
     class Server(Recorder, bus.BusProtocol):
         pass
 
+    from txdbus import client
+
+    class ClientConn(Recorder, client.DBusClientConnection):
+        """The real client protocol (its connectionAuthenticated hook sends Hello before the hand-off)."""
+
+    Basic.ClientConn = ClientConn
     return Basic, Server, StubAuth, Wrap, authentication
 
 
@@ -366,6 +403,7 @@ def observe(ctx, sc):
     if mode == 'binary':
         p = Basic()
         p._rec_init()
+        p.swallow = bool(sc.get('swallow'))
         p.transport = tr
         p._receivedFDs = []
         p._authenticated = True
@@ -384,10 +422,16 @@ def observe(ctx, sc):
             p.authenticator = authentication.ClientAuthenticator
         elif mode == 'real-server':
             p = Server()
+        elif mode == 'real-clientconn':
+            p = Basic.ClientConn()
         else:
             raise ValueError(mode)
         p._rec_init()
         p.factory = _FakeFactory()
+        if sc.get('linux') and mode.endswith('server'):
+            # the Linux-only SO_PEERCRED lookup of a server's first read
+            protocol._is_linux = True
+            tr.socket = _FakeSocket()
         p.makeConnection(tr)
         wrap = None
         if mode.startswith('real'):
@@ -408,15 +452,22 @@ def observe(ctx, sc):
             p.effects.append('!')
             break
     ctx.impl_trace()
-    final = '%s %d %d %d %d %d' % (bytes(p._buffer).hex() or '-', p._nextMsgLen, 1 if p._endian == '>' else 0,
-                                   1 if p._authenticated else 0, 1 if p._firstByte else 0,
-                                   1 if tr.disconnecting else 0)
+    final = '%s %d %d %d %d' % (bytes(p._buffer).hex() or '-', p._nextMsgLen,
+                                1 if p._authenticated else 0, 1 if p._firstByte else 0,
+                                1 if tr.disconnecting else 0)
     if wrap is not None:
         script = ''.join(wrap.script)
     else:
         script = sc.get('script', '')
     return {'effects': p.effects, 'final': final, 'parsed': p.parsed, 'raws': p.raws, 'script': script,
-            'crashed': crashed}
+            'crashed': crashed, 'authenticated': bool(p._authenticated), 'parse_failed': p.parse_failed}
+
+
+def strip_endian(model_out):
+    """The driver prints `| buffer next big auth fb closed`; `_endian` is not compared."""
+    head, sep, tail = model_out.rpartition('| ')
+    t = tail.split(' ')
+    return head + sep + ' '.join(t[:2] + t[3:]) if len(t) == 6 else model_out
 
 
 def impl_line(obs):
@@ -434,6 +485,16 @@ def model_line(sc, script):
 def classify(sc, obs):
     """Key of a violation of the oracle on scenario sc (None = property holds)."""
     sent = [bytes.fromhex(h) for h in sc['sent']]
+    if sc['mode'] != 'binary' and not obs['authenticated']:
+        return None, None            # the handshake did not authenticate: nothing for C04 to judge
+    if 'bad_index' in sc:
+        # judged up to and including the message that does not parse (the exception escapes there)
+        k = sc['bad_index'] + 1
+        if obs['raws'] == sent[:k] and obs['crashed'] and obs['parse_failed']:
+            return None, None
+        return 'delivery-after-unparsable-message', (
+            'an unparsable message inside a coalesced read: delivered %d raw messages, exception %r; expected the '
+            'first %d and the parse error escaping dataReceived' % (len(obs['raws']), obs['crashed'], k))
     if obs['raws'] == sent and obs['parsed'] == expected_of(sent):
         return None, None
     what = 'delivered %d messages, sent %d' % (len(obs['raws']), len(sent))
@@ -516,10 +577,18 @@ class Batch:
             ctx.stat('%s:delivered=%s' % (stream, bucket(len(o['raws']))))
             if o['crashed']:
                 ctx.stat('%s:exception=%s' % (stream, o['crashed']))
+            if not o['authenticated'] and sc['mode'] != 'binary' and oracle:
+                ctx.stat('%s:not-authenticated(S3 only)' % stream)
             if out is not None:
                 il = impl_line(o)
-                if out[k] != il:
-                    ctx.disagree(stream, shrink_sc(sc), clip(out[k]), clip(il))
+                ml = strip_endian(out[k])
+                if o['parse_failed'] and o['crashed']:
+                    # the model frames only: its effects must START with what was delivered before the parse error
+                    want = ''.join(e + ' ' for e in o['effects'] if e != '!')
+                    if not ml.startswith(want):
+                        ctx.disagree(stream, shrink_sc(sc), clip(ml), clip(il))
+                elif ml != il:
+                    ctx.disagree(stream, shrink_sc(sc), clip(ml), clip(il))
             if oracle:
                 key, what = classify(sc, o)
                 if key:
@@ -569,24 +638,27 @@ def mk_binary(raws, reads, **kw):
     return d
 
 
+def small_message(rng, big, limit=40):
+    for _ in range(500):
+        raw, b, m = gen_message(rng, short=True, kinds=('ret',), big=big)
+        if len(raw) <= limit:
+            return raw
+    raise RuntimeError('no message of at most %d bytes could be generated' % limit)
+
+
 def stream_binary_cuts(ctx, B):
+    """Every single and double cut (empty reads included) of streams of THREE small messages whose byte
+    orders alternate: cuts at message boundaries, inside the next fixed header, mixed byte orders in a read."""
     rng = ctx.rng
-    n_streams = ctx.scale(quick=3, thorough=120)
+    n_streams = ctx.scale(quick=2, thorough=120)
     for s in range(n_streams):
-        raws = []
         first_big = rng.random() < 0.5
-        while True:
-            # byte orders alternate inside the stream: every multi-message read is mixed
-            raw, big, m = gen_message(rng, short=True, big=(first_big if len(raws) % 2 == 0 else not first_big))
-            if sum(map(len, raws)) + len(raw) > (90 if ctx.tier == 'quick' else 120):
-                if raws:
-                    break
-                continue
-            raws.append(raw)
-            if len(raws) >= 4:
-                break
+        k = 3 if ctx.tier == 'quick' else rng.choice([3, 3, 4])
+        raws = [small_message(rng, first_big if i % 2 == 0 else not first_big, 40 if ctx.tier == 'quick' else 48)
+                for i in range(k)]
         stream = b''.join(raws)
         ctx.stat('binary-cuts:stream-len=%s' % bucket(len(stream)))
+        ctx.stat('binary-cuts:messages-per-stream=%d' % len(raws))
         for pos in all_single_double_cuts(len(stream)):
             B.add('binary-cuts', mk_binary(raws, cut(stream, list(pos))))
     B.flush()
@@ -619,6 +691,22 @@ def stream_binary_coalesced(ctx, B):
         B.flush()
 
 
+def stream_binary_huge(ctx, B):
+    """Thorough tier: one message of more than 1 MiB among small ones, cut inside it."""
+    if ctx.tier != 'thorough':
+        return
+    rng = ctx.rng
+    _, message, _, _ = _mods()
+    m = message.MethodReturnMessage(1, body=[[7] * 1300000], signature='ay')
+    m.serial = 9
+    raws = [gen_message(rng, short=True)[0], serialize(m, True), gen_message(rng, short=True)[0]]
+    stream = b''.join(raws)
+    for reads in ([stream], cut(stream, [70000, 1200000]), cut(stream, [len(raws[0]) + 8, len(stream) - 30])):
+        ctx.stat('binary-coalesced:message-over-1MiB')
+        B.add('binary-coalesced', mk_binary(raws, reads))
+        B.flush()
+
+
 def stream_binary_malformed(ctx, B):
     """Arbitrary bytes in binary mode: framing of garbage (correspondence only, no oracle)."""
     rng = ctx.rng
@@ -636,7 +724,8 @@ def stream_binary_malformed(ctx, B):
             tail = bytes(rng.choice([0, 13, 10, 108]) for _ in range(rng.randrange(0, 80)))
             parts.append(h + tail)
         stream = b''.join(parts)
-        B.add('binary-malformed', mk_binary([], random_partition(rng, stream)), oracle=False)
+        # framing of garbage: the harness keeps the framing going across messages that do not parse
+        B.add('binary-malformed', mk_binary([], random_partition(rng, stream), swallow=True), oracle=False)
     B.flush()
 
 
@@ -673,7 +762,8 @@ def stream_lines_scripted(ctx, B):
             # a server indexes data[0] while it waits for the NUL byte: no empty reads there
             reads = [r for r in reads if r] or [stream]
         B.add('lines-scripted', {'mode': 'stub-server' if server else 'stub-client', 'script': script,
-                                 'reads': [r.hex() for r in reads], 'sent': []}, oracle=False)
+                                 'reads': [r.hex() for r in reads], 'sent': [],
+                                 'linux': server and rng.random() < 0.5}, oracle=False)
     # the empty first read of a server: IndexError escapes
     B.add('lines-scripted', {'mode': 'stub-server', 'script': '', 'reads': [''], 'sent': []}, oracle=False)
     B.flush()
@@ -685,14 +775,14 @@ def handshake_for(rng, side):
         lines = []
         for _ in range(rng.choice([0, 0, 1, 2])):
             lines.append(rng.choice([b'REJECTED EXTERNAL DBUS_COOKIE_SHA1 ANONYMOUS', b'ERROR', b'ERROR "x"']))
-        lines.append(b'OK ' + rng.choice([b'0123456789abcdef0123456789abcdef', b'0d0a', b'00']))
+        lines.append(b'OK ' + ('%032x' % rng.getrandbits(128)).encode())
         return b''.join(l + b'\r\n' for l in lines)
     lines = []
     for _ in range(rng.choice([0, 0, 1, 2, 3])):
-        lines.append(rng.choice([b'AUTH', b'AUTH FOO', b'FOO', b'ERROR', b'CANCEL', b'DATA 00', b'']))
-    lines.append(b'AUTH ANONYMOUS ' + rng.choice([b'747864627573', b'']))
+        lines.append(rng.choice([b'AUTH', b'AUTH KERBEROS_V4', b'ERROR', b'CANCEL']))
+    lines.append(b'AUTH ANONYMOUS 747864627573')
     for _ in range(rng.choice([0, 0, 1])):
-        lines.append(rng.choice([b'NEGOTIATE_UNIX_FD', b'FOO']))
+        lines.append(b'NEGOTIATE_UNIX_FD')
     lines.append(b'BEGIN')
     return b'\0' + b''.join(l + b'\r\n' for l in lines)
 
@@ -731,8 +821,11 @@ def stream_handoff_real(ctx, B, side):
         rest = b''.join(raws)
         ctx.stat('%s:rest-has-crlf=%s' % (name, b'\r\n' in rest))
         for reads in handoff_partitions(rng, hs, rest, 3):
-            B.add(name, {'mode': side, 'reads': [r.hex() for r in reads], 'sent': [r.hex() for r in raws],
-                         'handshake': hs.hex()})
+            mode = side
+            if side == 'real-client' and rng.random() < 0.4:
+                mode = 'real-clientconn'       # DBusClientConnection: connectionAuthenticated sends Hello
+            B.add(name, {'mode': mode, 'reads': [r.hex() for r in reads], 'sent': [r.hex() for r in raws],
+                         'handshake': hs.hex(), 'linux': side == 'real-server' and rng.random() < 0.5})
     B.flush()
 
 
@@ -742,14 +835,16 @@ def stream_handoff_cuts(ctx, B):
     n = ctx.scale(quick=2, thorough=40)
     for i in range(n):
         side = 'real-client' if i % 2 == 0 else 'real-server'
-        hs = b'OK 0d0a\r\n' if side == 'real-client' else b'\0AUTH ANONYMOUS\r\nBEGIN\r\n'
+        hs = (b'OK 0123456789abcdef0123456789abcdef\r\n' if side == 'real-client'
+              else b'\0AUTH ANONYMOUS 747864627573\r\nBEGIN\r\n')
         raws = []
-        for _ in range(400):
+        for _ in range(3000):
             raw = gen_message(rng, short=True)[0]
             # several CR LF inside the message bytes: the old code cut them into several pieces
-            if raw.count(b'\r\n') >= (2 if not raws else 1) and len(raw) <= 64:
+            if (raw.count(b'\r\n') >= 2 and len(raw) <= (48 if ctx.tier == 'quick' else 64)) if not raws \
+                    else len(raw) <= 32:
                 raws.append(raw)
-                if len(raws) == (1 if ctx.tier == 'quick' else 2):
+                if len(raws) == (1 if (ctx.tier == 'quick' and side == 'real-server') else 2):
                     break
         rest = b''.join(raws)
         stream = hs + rest
@@ -801,6 +896,47 @@ def stream_handoff_bigtail(ctx, B):
         B.flush()
 
 
+def stream_handoff_stub(ctx, B):
+    """Stub authenticator; the final handshake line also occurs EARLIER in the same read (hand-off by line
+    number, not by value), lines repeat, empty lines."""
+    rng = ctx.rng
+    n = ctx.scale(quick=250, thorough=5000)
+    for _ in range(n):
+        server = rng.random() < 0.5
+        alphabet = rng.choice([[b'BEGIN'], [b'A', b'BEGIN'], [b'', b'A'], [b'']])
+        k = rng.choice([1, 2, 3, 4])
+        lines = [rng.choice(alphabet) for _ in range(k)]
+        lines.append(rng.choice(lines))               # the final line repeats an earlier one
+        hs = (b'\0' if server else b'') + b''.join(l + b'\r\n' for l in lines)
+        script = 'c' * (len(lines) - 1) + 's'
+        raws = [gen_message(rng, short=True)[0] for _ in range(rng.choice([1, 2, 3]))]
+        rest = b''.join(raws)
+        for reads in handoff_partitions(rng, hs, rest, 1):
+            if server:
+                reads = [r for r in reads if r] or [hs + rest]
+            B.add('handoff-stub', {'mode': 'stub-server' if server else 'stub-client', 'script': script,
+                                   'reads': [r.hex() for r in reads], 'sent': [r.hex() for r in raws],
+                                   'handshake': hs.hex(), 'linux': server and rng.random() < 0.5})
+    B.flush()
+
+
+def stream_binary_unparsable(ctx, B):
+    """A message that frames but does not parse (unknown message type 9) among good ones: everything up to
+    and including it is delivered and the parse error escapes dataReceived - in one read and cut up."""
+    rng = ctx.rng
+    n = ctx.scale(quick=150, thorough=3000)
+    for _ in range(n):
+        before = [gen_message(rng, short=True)[0] for _ in range(rng.choice([0, 1, 2, 4]))]
+        after = [gen_message(rng, short=True)[0] for _ in range(rng.choice([1, 2]))]
+        bad = bytearray(gen_message(rng, short=True)[0])
+        bad[1] = 9
+        raws = before + [bytes(bad)] + after
+        stream = b''.join(raws)
+        reads = [stream] if rng.random() < 0.5 else random_partition(rng, stream)
+        B.add('binary-unparsable', mk_binary(raws, reads, bad_index=len(before)))
+    B.flush()
+
+
 # --------------------------------------------------------------------------------------- entry points
 def run_one(ctx, stream, sc, oracle=True):
     B = Batch(ctx)
@@ -816,6 +952,7 @@ def run(ctx):
         run_one(ctx, data.get('stream', 'binary-random'), sc, oracle=data.get('oracle', True))
     B = Batch(ctx)
     stream_binary_coalesced(ctx, B)
+    stream_binary_huge(ctx, B)
     stream_binary_cuts(ctx, B)
     stream_binary_random(ctx, B)
     stream_binary_malformed(ctx, B)
@@ -824,7 +961,11 @@ def run(ctx):
     stream_handoff_real(ctx, B, 'real-server')
     stream_handoff_cuts(ctx, B)
     stream_handoff_bigtail(ctx, B)
+    stream_handoff_stub(ctx, B)
+    stream_binary_unparsable(ctx, B)
     B.flush()
+    for t in SERIALIZER_NOTES[:3]:
+        ctx.note(t)
 
 
 def replay(ctx, data):
